@@ -203,4 +203,26 @@ theorem written_eq_stored_full_witness : ¬ WrittenEqStoredFull := by
   revert this
   decide
 
+/-! ### finding C41-F4 -/
+
+/-- Finding C41-F4, the code as found (`App.appendSTG false`): a sample beyond `now + 10 min` is rejected by
+    `remoteWriteAppender.Append`, but its synthetic start-timestamp zero sample (equally far in the future)
+    is accepted by the unbounded `AppendSTZeroSample` and will be committed, and the fresh head is initialised
+    to the far-future time (every normal sample is out of bounds afterwards). Which appender /repo has is
+    `repoFixedFutureST` (fixes/C41-F4.patch). -/
+theorem future_st_zero_witness :
+    (App.append f9Head {} "s" ⟨futureLimit + 2000, .f, 1⟩ false).2.2 = some .oobFuture ∧
+    (App.appendSTG false f9Head {} "s" (futureLimit + 2000) (futureLimit + 1900) ⟨futureLimit + 1900, .f, 0⟩).2.pend
+      = [("s", ⟨futureLimit + 1900, .f, 0⟩)] ∧
+    (App.appendSTG false f9Head {} "s" (futureLimit + 2000) (futureLimit + 1900) ⟨futureLimit + 1900, .f, 0⟩).1.maxTime
+      = futureLimit + 2000 := by
+  decide
+
+/-- The repaired appender (`App.appendSTG true`): for a sample or start timestamp beyond the bound nothing
+    happens at all (no pending zero sample, the head is not initialised to a far-future time). -/
+theorem future_st_zero_fixed (h : Head) (a : App) (key : String) (t st : Int) (z : Sample)
+    (hfut : t > futureLimit ∨ st > futureLimit) :
+    App.appendSTG true h a key t st z = (h, a) := by
+  rcases hfut with ht | hst <;> simp [App.appendSTG, *]
+
 end Prom.C41
